@@ -182,11 +182,67 @@ func TestTransferReplay(t *testing.T) {
 		var trace []map[string]interface{}
 
 		for _, op := range b {
+			jl := [][3]string{}
+
 			switch op.Name {
 			case "PutExp":
 				_ = expC[op.N].Write(context.Background(), km.ByModel[op.K], op.V)
 			case "PutImp":
 				_ = impC[op.N].Write(context.Background(), km.ByModel[op.K], op.V)
+			case "ExportJSONL":
+				u := "http://exporter.test/jsonl"
+				if op.N != "" {
+					u += "?name=" + op.N
+				}
+
+				rec := httptest.NewRecorder()
+				expT.ExportJSONL().ServeHTTP(rec, httptest.NewRequest(http.MethodGet, u, nil))
+
+				jl = [][3]string{}
+
+				if rec.Code == http.StatusNotFound {
+					jl = append(jl, [3]string{"404", "", ""})
+				} else {
+					for _, line := range strings.Split(strings.TrimSpace(rec.Body.String()), "\n") {
+						if line == "" {
+							continue
+						}
+
+						var row struct {
+							Name  string      `json:"name"`
+							Key   string      `json:"key"`
+							Value interface{} `json:"value"`
+						}
+
+						if err := json.Unmarshal([]byte(line), &row); err != nil {
+							jl = append(jl, [3]string{"?bad line", line, ""})
+
+							continue
+						}
+
+						// keys travel as JSON strings: bytes that are not valid UTF-8 arrive as U+FFFD, so the
+						// lookup goes through the same round trip
+						mk := "?" + row.Key
+
+						for m, real := range km.ByModel {
+							var back string
+
+							jb, _ := json.Marshal(string(real))
+							_ = json.Unmarshal(jb, &back)
+
+							if back == row.Key {
+								mk = m
+							}
+						}
+
+						val := decAny(row.Value)
+						if be, ok := expC[row.Name]; ok && be.Kind() == "ShardedMapOf" {
+							val = decStr(fmt.Sprint(row.Value))
+						}
+
+						jl = append(jl, [3]string{row.Name, mk, val})
+					}
+				}
 			case "Import":
 				var rtlog []string
 
@@ -196,7 +252,7 @@ func TestTransferReplay(t *testing.T) {
 				}
 			}
 
-			trace = append(trace, map[string]interface{}{"ev": "op", "op": op, "imp": contents(impC), "exp": contents(expC)})
+			trace = append(trace, map[string]interface{}{"ev": "op", "op": op, "imp": contents(impC), "exp": contents(expC), "lines": jl})
 		}
 
 		_ = enc.Encode(map[string]interface{}{"b": bi, "steps": trace})
